@@ -1,0 +1,70 @@
+//go:build verif
+
+package fsm
+
+import "sort"
+
+// Read-only accessors used by the verification tooling (build tag "verif").
+
+type VerifTransition struct {
+	Source     State
+	Event      Event
+	Dst        State
+	IsInternal bool
+	IsAuto     bool
+	RunMode    EventRunMode
+}
+
+func (f *FSM) VerifTransitions() []VerifTransition {
+	out := make([]VerifTransition, 0, len(f.transitions))
+	for k, v := range f.transitions {
+		out = append(out, VerifTransition{k.source, k.event, v.dstState, v.isInternal, v.isAuto, v.runMode})
+	}
+	sort.Slice(out, func(i, j int) bool {
+		if out[i].Source != out[j].Source {
+			return out[i].Source < out[j].Source
+		}
+		return out[i].Event < out[j].Event
+	})
+	return out
+}
+
+type VerifAutoTransition struct {
+	State   State
+	RunMode EventRunMode
+	Event   Event
+}
+
+func (f *FSM) VerifAutoTransitions() []VerifAutoTransition {
+	out := make([]VerifAutoTransition, 0, len(f.autoTransitions))
+	for k, v := range f.autoTransitions {
+		out = append(out, VerifAutoTransition{k.state, k.runMode, v.event})
+	}
+	sort.Slice(out, func(i, j int) bool {
+		if out[i].State != out[j].State {
+			return out[i].State < out[j].State
+		}
+		return out[i].RunMode < out[j].RunMode
+	})
+	return out
+}
+
+func (f *FSM) VerifFinStates() []State {
+	out := make([]State, 0, len(f.finStates))
+	for s := range f.finStates {
+		out = append(out, s)
+	}
+	sort.Slice(out, func(i, j int) bool { return out[i] < out[j] })
+	return out
+}
+
+func (f *FSM) VerifCallbackEvents() []Event {
+	out := make([]Event, 0, len(f.callbacks))
+	for e := range f.callbacks {
+		out = append(out, e)
+	}
+	sort.Slice(out, func(i, j int) bool { return out[i] < out[j] })
+	return out
+}
+
+func (f *FSM) VerifInitialEvent() Event { return f.initialEvent }
